@@ -443,6 +443,64 @@ def rule_tagrows(program, ctx, prop=P, rid="C02.tagrows"):
         ctx.ok(rid, m.tree, "no explicit DELETE on the tags table (cascade only)")
 
 
+def rule_rows(program, ctx, prop=P, rid="C02.rows"):
+    from ..cfg import cfg_of as _cfg_of
+    from ..lib import NORMAL as _N
+
+    ctx.rule(
+        rid,
+        "every row the SQL statement selected is handed on, and the stream ends only when the statement is exhausted: in DBStorage.run_query each iteration of the "
+        "row loop reaches `yield event_from_tuple(row)` (no filter between fetch and yield - the WHERE clause is the filter), nothing in the two row loops "
+        "(DBStorage.run_query, Subscription.run_query) converts stored tag values with int()/float() outside a handler for ValueError (a value like "
+        "[\"expiration\",\"never\"] is accepted at admission: the conversion raises at that row, run_query's catch-all ends the stream and every older row is lost), "
+        "and the stream is not cut by a timeout (`async with timeout(...)`, wait_for): a truncated result is indistinguishable from a complete one for "
+        "run_single_query's callers (the allow/deny list builder publishes it as the full list)",
+        floor=2,
+    )
+    rq = program.func("nostr_relay.storage.db:DBStorage.run_query")
+    cfg = _cfg_of(rq)
+    loops = [n for n, d in cfg.g.nodes(data=True) if d["kind"] == "loop" and isinstance(d["ast"], ast.AsyncFor)]
+    ys = cfg.stmt_nodes(lambda s: any(isinstance(y, ast.Yield) for y in ast.walk(s)), kinds=("stmt",))
+    if not loops or not ys:
+        raise AnalysisError("DBStorage.run_query: row loop / yield not found")
+    for lp in loops:
+        body = list(cfg.succ(lp, kinds={"t"}))
+        path = cfg.find_path(body, [lp], avoid_nodes=ys, kinds=_N)
+        if path:
+            last = next((cfg.ast_of(n) for n in reversed(path[:-1]) if cfg.ast_of(n) is not None), rq)
+            ctx.bad(finding_at(prop, rid, last, "a fetched row can be skipped without being yielded: stored events that match the filter are withheld from the result", path=cfg.describe_path(path)[-4:]))
+        else:
+            ctx.ok(rid, cfg.ast_of(lp), "every fetched row is yielded")
+    for y in ys:
+        st = cfg.ast_of(y)
+        val = next((x.value for x in ast.walk(st) if isinstance(x, ast.Yield)), None)
+        src = val
+        if isinstance(val, ast.Name):
+            b = [s_ for s_ in stores_of(rq, val.id) if isinstance(s_, ast.Assign)]
+            src = b[0].value if len(b) == 1 else None
+        if not (isinstance(src, ast.Call) and call_name(src) == "event_from_tuple"):
+            ctx.bad(finding_at(prop, rid, st, f"run_query yields `{ast.unparse(val)[:40] if val is not None else None}`, not event_from_tuple(row)"))
+    for w in walk_no_nested(rq):
+        if isinstance(w, (ast.With, ast.AsyncWith)):
+            for it in w.items:
+                nm = call_name(it.context_expr) if isinstance(it.context_expr, ast.Call) else ""
+                if nm.split(".")[-1] in ("timeout", "timeout_at", "fail_after", "move_on_after"):
+                    ctx.bad(finding_at(prop, rid, w, f"the row stream runs under `{nm}(...)`: when it fires the generator ends like an exhausted statement - callers that take the stream "
+                                       "as the complete answer (dynamic allow/deny lists, run_single_query) publish a truncated result"))
+        if isinstance(w, ast.Call) and call_name(w).split(".")[-1] == "wait_for":
+            ctx.bad(finding_at(prop, rid, w, "the row stream is awaited through wait_for: a timeout truncates the result silently"))
+    for fn in (rq, program.func("nostr_relay.storage.db:Subscription.run_query")):
+        for lp_ in [l for l in walk_no_nested(fn) if isinstance(l, (ast.AsyncFor, ast.For))]:
+            for c in ast.walk(lp_):
+                if isinstance(c, ast.Call) and isinstance(c.func, ast.Name) and c.func.id in ("int", "float") and c.args and any(isinstance(x, ast.Subscript) for x in ast.walk(c.args[0])):
+                    guarded = any(isinstance(a, ast.Try) and any(c is x for b_ in a.body for x in ast.walk(b_)) and any(h.type is not None and ("ValueError" in ast.unparse(h.type)) for h in a.handlers)
+                                  for a in ancestors(c) if any(a is y for y in ast.walk(lp_)))
+                    if not guarded:
+                        ctx.bad(finding_at(prop, rid, c, f"{qual_of(fn)}: `{ast.unparse(c)[:40]}` converts a stored tag value inside the row loop with no ValueError handler there: one stored event "
+                                           "with a non-numeric value ends every query that reaches it (the rows after it are never sent; the query slot is held)"))
+    ctx.ok(rid, rq, "row loops: no conversion of stored values, no timeout")
+
+
 def run(program, ctx):
     from ..lib import rule_awaited
 
@@ -482,6 +540,11 @@ def run(program, ctx):
     c04.rule_serializer(program, ctx, c04.canonical_fields(program, ctx, ctx.rule("C02.canonical", "admission proves canonical id/pubkey/sig/created_at (input to C02.serializer)", floor=0)), prop=P, rid="C02.serializer")
     c01.rule_tagindex(program, ctx, prop=P, rid="C02.tagindex")
     c01.rule_emptylist(program, ctx, prop=P, rid="C02.emptylist")
+    rule_rows(program, ctx)
+    from . import c07 as _c07
+
+    # an index write that fails must abort the record's transaction: a record without its index entries is stored but never found
+    _c07.rule_kvregion(program, ctx, prop=P, rid="C02.kvregion")
     from . import c05, c12
 
     # a stored query that is cancelled by another connection's REQ (shared registry entry) ends without its remaining events
